@@ -611,8 +611,14 @@ def run_scenario(ctx, names, src_levels, tts, as_dict, signs, kinds, with_none):
             s.state(mid)
         else:
             ctx.violation('pickle dump without roots raised', dict(got=ans, tags=dict(call='dump')))
+    # ---- the source is untouched by the pickle dumps (loads into `same` add nodes) -----
+    if 'same' not in kinds and s.state(0) != src_state:
+        ctx.violation('dumping changed the source manager', dict(tags=dict(call='dump')))
     # ---- whole manager ----------------------------------------------------------
+    before_mdump = s.state(0)
     ans = s.op(0, 'mdump')
+    if s.state(0) != before_mdump:
+        ctx.violation('whole-manager dump changed the source manager', dict(tags=dict(call='dump-manager')))
     if ans.startswith('ok'):
         fh, d = sc.last()
         b0 = s.mgr(0)
@@ -695,9 +701,6 @@ def run_scenario(ctx, names, src_levels, tts, as_dict, signs, kinds, with_none):
                         sc.after_drop(mid, tags)
                     s.state(mid)
                     ctx.count(f'json:{kind}:{"O" if lo else "o"}{"+dyn" if dyn else ""}')
-    # ---- the source is untouched by all dumps (loads into `same` add nothing new) --
-    if 'same' not in kinds and s.state(0) != src_state:
-        ctx.violation('dumping changed the source manager', dict(tags=dict(call='dump')))
     ctx.case(('scenario', tuple(src_levels), tuple(tts), as_dict, tuple(signs), tuple(kinds)))
     ctx.add_session(s, SECTIONS_L3, f'C12 {sc.tag_base}')
     s.close()
@@ -770,6 +773,31 @@ def build_driver():
         raise RuntimeError('lake build ddvdump failed:\n' + p.stdout[-3000:])
 
 
+def witness_json_reordering_flag(ctx):
+    """F10 (observation, outside the text of C12): `_load_json(load_order=True)` keeps the dict
+    returned by `configure()` and passes it back as the value of `reordering`, so dynamic
+    reordering is enabled after the call although it was disabled before.  The model mirrors
+    it (`DD.loadJson_loadOrder_enables_reordering`); recorded as a note, not as a violation."""
+    s = Session(ctx)
+    s.new(0, ['a', 'b'])
+    u = s.val(s.op(0, 'apply', 'and', s.val(s.op(0, 'var', 'a')), s.val(s.op(0, 'var', 'b'))))
+    s.incref(0, u)
+    s.op(0, 'jdump', roots_show([u]))
+    fh, d = s.impl.objs['last']
+    s.new(1, ['a', 'b'])
+    before = s.mgr(1)._last_len
+    a2 = s.op(1, 'jload', fh, 'h1', 1, *json_fields(d, False))
+    after = s.mgr(1)._last_len
+    if a2.startswith('ok'):
+        s.op(1, 'drop', 'h1', a2[3:])
+    s.state(1)
+    if before is None and after is not None:
+        ctx.notes.append('F10 observed: load_json(load_order=True) left dynamic reordering ENABLED '
+                         f'(_last_len None -> {after}) on a manager where it was disabled')
+    ctx.add_session(s, SECTIONS_L3, 'C12 F10 witness')
+    s.close()
+
+
 def check_C12(ctx):
     ctx.driver = 'ddvdump'
     build_driver()
@@ -778,6 +806,15 @@ def check_C12(ctx):
         refused_files(ctx)
         abc = ['a', 'b', 'c']
         abcd = ['a', 'b', 'c', 'd']
+        # fixed witnesses of the defects seen at design time, replayed on every run:
+        #  F3  b /\ a dumped from a manager whose `vars` dict order (a, b, c) differs from its
+        #      level order (b < a < c), loaded with levels=False (fresh manager included);
+        #  F2  the same manager dumped without roots;  F11  the constant TRUE among the roots
+        run_scenario(ctx, abc, [('a', 1), ('b', 0), ('c', 2)], [0b10001000], False, [1],
+                     ['fresh', 'declared-other'], with_none=True)
+        run_scenario(ctx, abc, [('a', 0), ('b', 1), ('c', 2)], [0b11111111, 0b10001000], True, [1, -1],
+                     ['fresh', 'same'], with_none=False)
+        witness_json_reordering_flag(ctx)
         n = 0
         budget_tail = 25 if ctx.tier == 'quick' else 60
         total = 250 if ctx.tier == 'quick' else 4000
@@ -813,6 +850,10 @@ def check_C12(ctx):
             if n % 10 == 0:
                 ctx.flush_model()
         ctx.notes.append(f'{n} scenarios')
+        ctx.notes.append('pickle load with dynamic reordering enabled and the request armed: '
+                         'find_or_add asks for reordering only inside a reordering context and '
+                         'BDD.load opens none, so no reordering happens (nothing escapes); JSON load '
+                         '(load_order=False) reorders inside var()/ite() and stays correct')
     finally:
         cleanup()
 
